@@ -122,6 +122,15 @@ def rule_queue_drain(ctx: Ctx, prog: Program) -> None:
         return
     for r in empties:
         ok_all = True
+        # reporting 'empty' must not modify the queue: a flag cleared here belongs to a constraint that is dropped without being executed
+        for e in r.events:
+            if e.kind == "store" and e.root == trig:
+                if isinstance(e.old, Aff) and r.state.facts.decide(("eq0", e.old if (not e.old.t or e.old.t[0][1] > 0) else -e.old)) is True:
+                    continue  # the flag was already clear: nothing is discarded
+                ok_all = False
+                ctx.violation("R-QUEUE-DRAIN", fn.path, "pop_propagator", "empty-path-clears-flag", f"{fn.path}:{e.line}",
+                              f"pop_propagator clears {View(e.root, e.idx)!r} on a path that reports 'empty' (-1): a queued constraint is discarded "
+                              "without being executed, and the pass ends although its input changed since it last ran")
         for l in loops_of(r.state.trace):
             if l.index is None:
                 continue
